@@ -26,8 +26,8 @@ import numpy
 
 from .. import lib
 
-CALL_ONLY = ('npint', 'npfloat', 'Number', 'Text', 'Boolean', 'BLANK',
-             'DateTime')
+CALL_ONLY = ('npint', 'npfloat', 'npint32', 'npfloat32', 'Number', 'Text',
+             'Boolean', 'BLANK', 'DateTime')
 
 # how a cell comes to hold each error code (quick tier: computed where a
 # plain computation yields the code, the literal otherwise)
@@ -60,6 +60,10 @@ def mat(spec):
         return numpy.int64(spec[1])
     if k == 'npfloat':
         return numpy.float64(spec[1])
+    if k == 'npint32':
+        return numpy.int32(spec[1])
+    if k == 'npfloat32':
+        return numpy.float32(spec[1])
     if k == 'Number':
         return lib.Number(spec[1])
     if k == 'str':
